@@ -47,6 +47,8 @@ class Ctx(object):
         self.extra = {}
         self.replayers = {}        # obligation name pattern -> callable(ctx, ob, model) -> dict
         self.audits = []           # (name, ok, detail)
+        self.explorations = []
+        self.explore_stats = {}
         self.t0 = time.time()
 
     # -- building ---------------------------------------------------------
@@ -69,17 +71,57 @@ class Ctx(object):
         return it
 
     def verify(self, qualname, labels=None, cases=None, tag=None):
-        c = self.registry.contracts.get(qualname)
+        if isinstance(qualname, C.Contract):
+            c = qualname
+            qualname = c.qualname
+        else:
+            c = self.registry.contracts.get(qualname)
         if c is None:
             raise CheckerError('no contract registered for %s' % qualname)
-        r = verify.verify_function(self.it, c, self.globals, cases=cases, labels=labels, tag=tag)
+        r, expls = verify.verify_function(self.it, c, self.globals, cases=cases, labels=labels, tag=tag)
+        r.never_returns = getattr(c, 'never_returns', False)
         self.results.append(r)
-        self.obligations.extend(r.obligations)
-        if not r.obligations:
-            raise CheckerError('zero obligations generated for %s (vacuous contract?)' % qualname)
-        if r.normal_paths == 0 and not getattr(c, 'never_returns', False):
-            raise CheckerError('no reachable normal path for %s: requires unsatisfiable or model hole' % qualname)
+        self.explorations.extend(expls)
         return r
+
+    def add_exploration(self, label, fn, result, target=None):
+        from .parallel import Exploration
+        if result not in self.results:
+            self.results.append(result)
+        self.explorations.append(Exploration(label, fn, result, target))
+
+    def run_explorations(self):
+        """explore every registered function case (in parallel) and solve the obligations"""
+        from . import parallel
+        if not self.explorations:
+            return
+        records, stats, errors, per = parallel.run_all(self.it, self.explorations,
+                                                       cross=(self.tier == 'thorough'))
+        self.explorations = []
+        self.obligations.extend(records)
+        by_result = {}
+        for rec in records:
+            pass
+        self.explore_stats = stats
+        if errors:
+            raise CheckerError('%d path(s) left the supported subset or crashed; first: %s'
+                               % (len(errors), errors[0]))
+        # vacuity guards
+        labels = {}
+        for rec in records:
+            labels.setdefault(rec.name.split('#')[0], 0)
+            labels[rec.name.split('#')[0]] += 1
+        for r in self.results:
+            if getattr(r, 'checked', False):
+                continue
+            r.checked = True
+            n = sum(v for k, v in labels.items() if k.startswith(r.qualname))
+            r.n_obligations = n
+            if n == 0:
+                raise CheckerError('zero obligations generated for %s (vacuous contract?)' % r.qualname)
+            if r.normal_paths == 0 and not getattr(r, 'never_returns', False):
+                raise CheckerError('no reachable normal path for %s: requires unsatisfiable or model hole'
+                                   % r.qualname)
 
 
 TYPES = TypeEnv()
@@ -201,9 +243,31 @@ def main(argv=None):
         load_sidecars()
         mod = importlib.import_module('pyvc.props.%s' % pid.lower())
         mod.run(ctx)
+        ctx.run_explorations()
         if not ctx.obligations:
             raise CheckerError('zero obligations for %s' % pid)
-        stats = discharge.discharge(ctx.obligations, cross_check_all=(tier == 'thorough'))
+        # obligations produced by the parallel explorer are already solved in the workers;
+        # anything a driver added directly is discharged here
+        todo = [o for o in ctx.obligations if getattr(o, 'verdict', None) is None]
+        stats = discharge.discharge(todo, cross_check_all=(tier == 'thorough')) if todo else {}
+        stats = dict(stats)
+        for o in ctx.obligations:
+            info = getattr(o, 'solver', None) or {}
+            if o in todo:
+                continue
+            if info.get('trivial'):
+                stats['trivial'] = stats.get('trivial', 0) + 1
+            elif o.verdict == 'proved':
+                k = 'z3_proved' if info.get('z3') == 'unsat' else 'cvc5_proved'
+                stats[k] = stats.get(k, 0) + 1
+            elif o.verdict == 'refuted':
+                stats['refuted'] = stats.get('refuted', 0) + 1
+            else:
+                stats['undecided'] = stats.get('undecided', 0) + 1
+            stats['z3_s'] = stats.get('z3_s', 0.0) + (info.get('z3_s') or 0.0)
+            stats['cvc5_s'] = stats.get('cvc5_s', 0.0) + (info.get('cvc5_s') or 0.0)
+        stats.update({'explore_' + k: v for k, v in ctx.explore_stats.items() if k != 'explore_wall'})
+        stats['explore_wall_s'] = ctx.explore_stats.get('explore_wall', 0.0)
         ctx.stats = stats
         if hasattr(mod, 'after_discharge'):
             mod.after_discharge(ctx)
@@ -274,9 +338,11 @@ def write_evidence(ctx, path, error=None):
     samples = []
     for o in obs[:3] + obs[len(obs) // 2: len(obs) // 2 + 2]:
         samples.append({'obligation': o.name, 'kind': o.kind, 'verdict': o.verdict,
-                        'goal': str(z3.simplify(o.goal))[:400], 'hypotheses': len(o.hyps)})
+                        'goal': (getattr(o, 'goal_str', None) or str(z3.simplify(o.goal)))[:400],
+                        'hypotheses': len(o.hyps)})
     samples.extend(ctx.samples[:5])
-    functions = [dict(r.info, paths=r.paths, cases=r.cases, obligations=len(r.obligations),
+    functions = [dict(r.info, paths=r.paths, cases=r.cases,
+                      obligations=getattr(r, 'n_obligations', len(r.obligations)),
                       seconds=round(r.seconds, 2)) for r in ctx.results if r.info]
     known = load_known()
     ev = {
